@@ -331,6 +331,13 @@ def serializeScpd (fs : Facts) (vars : List VarDef) (acts : List SAct) : Xml :=
 
 /-! ### client: factory (`client_factory.py`) -/
 
+/-- text of one `<allowedValue>`: an element without text is the empty string for the string types
+    and is skipped for the others (`v.text or ""  … if v.text is not None or type is str`) -/
+def allowedText (isStr : Bool) (t : Option Str) : Option Str :=
+  match t with
+  | some s => some s
+  | none => if isStr then some [] else none
+
 /-- `_parse_state_variable_el` (`none` = UpnpError: unsupported data type) -/
 def parseVar (e : Xml) : Option VarDef :=
   let se : Bool :=
@@ -350,7 +357,7 @@ def parseVar (e : Xml) : Option VarDef :=
            min := rng.bind fun r => r.findtext (sq "minimum") none
            max := rng.bind fun r => r.findtext (sq "maximum") none
            allowed := (e.find (sq "allowedValueList")).map fun l =>
-             (l.findall (sq "allowedValue")).filterMap (·.text)
+             (l.findall (sq "allowedValue")).filterMap (fun c => allowedText (famOf dt == some .str) c.text)
            default := e.findtext (sq "defaultValue") none }
 
 /-- the eager part of `_state_variable_create_schema`: every allowed value and non-empty bound must
